@@ -5,8 +5,12 @@ use serde_json::{json, Value};
 use std::io::Read;
 
 pub fn render_outputs(outs: &[egglog::CommandOutput]) -> Vec<String> {
+    // C06 compares runs with different thread counts: whether a rule that matched NOTHING is listed in the report (with
+    // count 0) depends on which implementation ran it and is not an observable the property names; such entries are
+    // dropped there (VERIF_DROP_ZERO_MATCHES).  C20 (same configuration twice) keeps them.
+    let drop_zero = std::env::var("VERIF_DROP_ZERO_MATCHES").is_ok();
     outs.iter().map(|o| match o {
-        egglog::CommandOutput::RunSchedule(r) => { let mut m: Vec<(String, usize)> = r.num_matches_per_rule.iter().map(|(k, v)| (k.to_string(), *v)).collect(); m.sort();
+        egglog::CommandOutput::RunSchedule(r) => { let mut m: Vec<(String, usize)> = r.num_matches_per_rule.iter().filter(|(_, v)| !drop_zero || **v > 0).map(|(k, v)| (k.to_string(), *v)).collect(); m.sort();
             format!("run-report iterations={} updated={} matches={:?}", r.iterations.len(), r.updated, m) }
         egglog::CommandOutput::OverallStatistics(r) => { let mut m: Vec<(String, usize)> = r.num_matches_per_rule.iter().map(|(k, v)| (k.to_string(), *v)).collect(); m.sort(); format!("stats matches={:?}", m) }
         other => other.to_string(),
@@ -50,7 +54,7 @@ pub fn spawn(job: &Value, env: &[(&str, &str)], pad_args: usize) -> Result<Value
     let mut ch = cmd.stdin(Stdio::piped()).stdout(Stdio::piped()).stderr(Stdio::null()).spawn().map_err(|e| e.to_string())?;
     ch.stdin.take().unwrap().write_all(job.to_string().as_bytes()).map_err(|e| e.to_string())?;
     // watchdog: a child that does not finish within the limit is a (replayable) hang
-    let limit: u64 = std::env::var("VERIF_CHILD_TIMEOUT_S").ok().and_then(|x| x.parse().ok()).unwrap_or(120);
+    let limit: u64 = std::env::var("VERIF_CHILD_TIMEOUT_S").ok().and_then(|x| x.parse().ok()).unwrap_or(600);
     let t0 = std::time::Instant::now();
     loop {
         match ch.try_wait() { Ok(Some(_)) => break, Ok(None) => {}, Err(e) => return Err(e.to_string()) }
